@@ -33,6 +33,13 @@ CHECKS = {
             'the sample-only model, bit-identical score after altering feature values outside the sampled rows.',
             'No sanitizer for JIT code: out-of-bounds reads are visible only via crashes, non-determinism or model disagreement. '
             'r*n within 1e-4 of an integer excluded (float32 floor ambiguity).', 'DESIGN.md §3 C04'),
+    'C05': ('Hypothesis string frames x documented heuristic names: differential against direct computation on harness-side codes',
+            'Exploration: generated batches (empty strings, unicode, digit ids, cardinalities beyond int8/int16 codes, dependent columns) '
+            'are scored through mixed_rank_graph with every documented non-surrogate heuristic name (scanned from the docs/scripts at run '
+            'time) and every emitted triplet is compared with an independent evaluation of that heuristic on codes recomputed by the '
+            'harness, with the label as conditioning side; a directed class reaches hash-aliasing code distances.',
+            'Trusted: reference models; scipy pearsonr / sklearn AMI as the named heuristics. Surrogate heuristics out of scope.',
+            'DESIGN.md §3 C05'),
 }
 
 NOT_YET = 'check not built yet in this commit (work in progress; planned in DESIGN.md §3)'
